@@ -3,28 +3,22 @@ import MythVerif.Proofs.WsQueueTsoTac
 namespace MythVerif.WsqTso
 open MythVerif.Wsq
 
-set_option maxHeartbeats 4000000 in
 theorem f_O_top_cll (s : St) (v0) (rest : List Sto) : Inv s → s.opc = .cll →
     s.bufO = .top v0 :: rest → Inv (applySto { s with bufO := rest } (.top v0)) := by
   intro h hpc hb
   simp only [applySto]
-  cases h; simp only [hpc, ownerLocked, carry, resetting, ownerFlight] at *
-  tso_finish3
+  tso_fastO h hpc [carryC]
 
-set_option maxHeartbeats 4000000 in
 theorem f_O_top_pof (s : St) (v0) (rest : List Sto) (t) : Inv s → s.opc = .pof t →
     s.bufO = .top v0 :: rest → Inv (applySto { s with bufO := rest } (.top v0)) := by
   intro h hpc hb
   simp only [applySto]
-  cases h; simp only [hpc, ownerLocked, carry, resetting, ownerFlight] at *
-  tso_finish3
+  tso_fastO h hpc [pof]
 
-set_option maxHeartbeats 4000000 in
 theorem f_O_top_po8 (s : St) (v0) (rest : List Sto) : Inv s → s.opc = .po8 →
     s.bufO = .top v0 :: rest → Inv (applySto { s with bufO := rest } (.top v0)) := by
   intro h hpc hb
   simp only [applySto]
-  cases h; simp only [hpc, ownerLocked, carry, resetting, ownerFlight] at *
-  tso_finish3
+  tso_fastO h hpc [po8]
 
 end MythVerif.WsqTso
